@@ -9,6 +9,7 @@ import (
 	"encoding/json"
 	"fmt"
 	"github.com/gorilla/websocket"
+	"net"
 	"net/http/httptest"
 	"os"
 	"regexp"
@@ -526,7 +527,122 @@ func ConnectionEnd(d *fw.Driver, res *fw.Result, seed int64, thorough bool) erro
 	}
 	// the hand-off schedule: the reader holds a message for the main loop when the server cancels the connection
 	base += 50
-	return endOne(d, res, seed, "server-ctx-cancel", 0, base, "reader.msg")
+	if err := endOne(d, res, seed, "server-ctx-cancel", 0, base, "reader.msg"); err != nil {
+		return err
+	}
+	// a foreign peer: it stops reading while a big response is being written to it, then half-closes;
+	// and it is midway through sending a message when the server shuts the connection down
+	base += 50
+	if err := rawEnd(res, seed, "stalled-writer-fin", base); err != nil {
+		return err
+	}
+	base += 50
+	return rawEnd(res, seed, "partial-frame-server-cancel", base)
+}
+
+// rawEnd: connection ends seen from a peer that is not this library's client.
+func rawEnd(res *fw.Result, seed int64, mode string, base int) error {
+	e, err := scen.NewEnv(seed+int64(base), 1, jsonrpc.WithServerPingInterval(10*time.Millisecond))
+	if err != nil {
+		return err
+	}
+	defer e.Close()
+	h := e.H
+	before, _ := serverGoroutines()
+	sig := "connection-end raw-peer " + mode
+	dialer := websocket.Dialer{ReadBufferSize: 1024}
+	conn, _, err := dialer.Dial("ws"+strings.TrimPrefix(e.HTTPURL(), "http"), nil)
+	if err != nil {
+		return err
+	}
+	defer conn.Close()
+	tc, _ := conn.UnderlyingConn().(*net.TCPConn)
+	if tc != nil {
+		tc.SetReadBuffer(4096)
+	}
+	toks := []int{base + 1}
+	conn.WriteMessage(websocket.TextMessage, []byte(fmt.Sprintf(`{"jsonrpc":"2.0","id":1,"method":"SH.Block","params":[%d]}`, base+1)))
+	for w := 0; w < 3000 && h.C.Entered(base+1) == 0; w++ {
+		time.Sleep(time.Millisecond)
+	}
+	switch mode {
+	case "stalled-writer-fin":
+		// a response far larger than the socket buffers, to a peer that never reads: the writer holds the
+		// write lock, the pinger queues behind it
+		conn.WriteMessage(websocket.TextMessage, []byte(fmt.Sprintf(`{"jsonrpc":"2.0","id":2,"method":"SH.Echo","params":[%d,%d]}`, base+2, 48<<20)))
+		for w := 0; w < 3000 && h.C.Entered(base+2) == 0; w++ {
+			time.Sleep(time.Millisecond)
+		}
+		// wait until a writer has held the write lock for 80 ms without finishing (the response is stuck in the
+		// socket), so that several ping intervals pass in that state
+		stalledSince := time.Time{}
+		for w := 0; w < 5000; w++ {
+			if e.RT.Count("w.begin") > e.RT.Count("w.end") {
+				if stalledSince.IsZero() {
+					stalledSince = time.Now()
+				} else if time.Since(stalledSince) > 80*time.Millisecond {
+					break
+				}
+			} else {
+				stalledSince = time.Time{}
+			}
+			time.Sleep(time.Millisecond)
+		}
+		if stalledSince.IsZero() || time.Since(stalledSince) < 80*time.Millisecond {
+			res.Note("raw-end stalled-writer: the response writer did not stall (socket buffers took the whole response); scenario not exercised")
+		}
+		if tc != nil {
+			tc.CloseWrite()
+		}
+	case "partial-frame-server-cancel":
+		w, werr := conn.NextWriter(websocket.TextMessage)
+		if werr == nil {
+			w.Write([]byte(`{"jsonrpc":"2.0","id":3,"method":"SH.Echo","params":[1,"` + strings.Repeat("x", 64<<10)))
+			// no Close: the message stays unfinished; the first fragment is on the wire
+			if f, ok := w.(interface{ Flush() error }); ok {
+				f.Flush()
+			}
+		}
+		time.Sleep(20 * time.Millisecond)
+		e.SrvCancel()
+	}
+	// (1) the handler still running for the connection sees its context cancelled
+	ok := false
+	for w := 0; w < 5000; w++ {
+		if c, known := h.C.CtxErr(base + 1); known && c {
+			ok = true
+			break
+		}
+		time.Sleep(time.Millisecond)
+	}
+	if !ok {
+		res.Add(fw.Finding{Kind: "monitor", Signature: sig + " handler context not cancelled", Detail: fmt.Sprintf("the connection ended (%s) but the context of the handler still running for it stayed live for 5s", mode),
+			Case: map[string]interface{}{"scenario": "raw-end", "mode": mode}})
+	}
+	for _, t := range toks {
+		h.C.Release(t)
+	}
+	for w := 0; w < 3000 && !h.C.Exited(base+1); w++ {
+		time.Sleep(time.Millisecond)
+	}
+	conn.Close()
+	// (2) nothing is retained once the handlers have returned
+	left, digest := 0, ""
+	for w := 0; w < 600; w++ {
+		left, digest = serverGoroutines()
+		if left <= before {
+			break
+		}
+		time.Sleep(5 * time.Millisecond)
+	}
+	if left > before {
+		res.Add(fw.Finding{Kind: "monitor", Signature: sig + " goroutines retained: " + firstFrame(digest),
+			Detail: fmt.Sprintf("%d goroutine(s) labelled for the dead server connection are still alive 3s after its handlers returned: %s", left-before, digest),
+			Case:   map[string]interface{}{"scenario": "raw-end", "mode": mode}})
+	}
+	res.Count("rawend." + mode)
+	res.Eval(true, []interface{}{"c15", "raw-end", mode})
+	return nil
 }
 
 func endOne(d *fw.Driver, res *fw.Result, seed int64, cause string, reaction time.Duration, base int, gateSite string) error {
